@@ -35,7 +35,7 @@ type AliasWL struct {
 	Walks  []Req `json:"walks"` // SearchAfter / SearchBefore walks (Size = page size)
 }
 
-var aliasSorts = [][]string{{"num", "_id"}, {"-num", "-_id"}, {"kw", "_id"}, {"-kw", "num", "_id"}, {"date", "-_id"}, {"_id"}, {"-_id"}, {"tags:min", "_id"}, {"-tags:max", "_id"}, {"flag", "-num", "_id"}}
+var aliasSorts = [][]string{{"num", "_id"}, {"-num", "-_id"}, {"kw", "_id"}, {"-kw", "num", "_id"}, {"date", "-_id"}, {"_id"}, {"-_id"}, {"tags:min", "_id"}, {"-tags:max", "_id"}, {"flag", "-num", "_id"}, {"num#n", "_id"}, {"-num#n", "kw", "_id"}, {"date#d", "_id"}, {"-date#d", "-_id"}}
 
 func genAlias(c *core.Ctx) (AliasCfg, AliasWL) {
 	g := c.Gen
